@@ -211,3 +211,117 @@ def params_str(t=None, c=None):
 def val_of(kind, x):
     """u8 value of an item expression of the given kind"""
     return deref(kind, x)
+
+
+# ---------------------------------------------------------------- tagged pipelines (shape-enumerated harnesses)
+class TaggedPipeline:
+    """Items are pairs (tag: usize, value: u8): the tag is a CONCRETE position-derived number on which every
+    filtering / fan-out decision is taken (so that the lengths of all intermediate vectors are constants for
+    the symbolic executor), the value is symbolic and flows through every stage.
+    counts[i] = number of outputs element i finally yields (0/1 for filtering chains, 0..2 with flat_map)."""
+
+    def __init__(self, ty, counts, src="tslice"):
+        self.ty = ty
+        self.counts = list(counts)
+        self.src = src
+        self.ops = [o.kind for o in TYPE_CHAINS[ty]]
+        self.n = len(counts)
+
+    def type(self):
+        return self.ty
+
+    def src_ref(self):
+        return self.src == "tslice"
+
+    def decl(self):
+        """input declaration: tags concrete, values symbolic"""
+        n = self.n
+        s = f"    let vals: [u8; {n}] = kani::any();\n"
+        s += "    let a: [(usize, u8); %d] = [%s];\n" % (n, ", ".join(f"({i}, vals[{i}])" for i in range(n)))
+        return s
+
+    def par_src(self):
+        return {"tslice": "(&a[..]).into_par()", "tvec": "a.to_vec().into_par()"}[self.src]
+
+    def seq_src(self):
+        return {"tslice": "a.iter()", "tvec": "a.to_vec().into_iter()"}[self.src]
+
+    def table(self, vals, ty="bool"):
+        return "[" + ", ".join(str(v).lower() for v in vals) + "]"
+
+    def closures(self, probes):
+        """-> list of (method, closure text)"""
+        out = []
+        ref = self.src_ref()
+        first = True
+        n, c = self.n, self.counts
+        has_fl = "flat_map" in self.ops
+        filt_stages = [o for o in self.ops if o in ("filter", "filter_map")]
+        for si, op in enumerate(self.ops):
+            arg_t = "&(usize, u8)" if (ref and first) else "(usize, u8)"
+            get = "let (t, v) = *x;" if (ref and first) else "let (t, v) = x;"
+            pr = ""
+            if probes and first:
+                pr = "probe_ref!(x as *const (usize, u8) as *const u8); " if ref else "probe_val!(); "
+            if op == "map":
+                out.append(("map", f"move |x: {arg_t}| {{ {pr}{get} (t, v.wrapping_add(8)) }}"))
+                first = False
+            elif op == "filter":
+                # the item is still a reference to the source element if nothing mapped it yet
+                if ref and first:
+                    keep = self.keep_table(si, filt_stages, per_output=False)
+                    out.append(("filter", f"move |x: &&(usize, u8)| {{ {pr.replace('x as', '*x as')}{self.table(keep)}[x.0] }}"))
+                else:
+                    if has_fl:
+                        # tags after flat_map are 4*pos + j
+                        keep = []
+                        for i in range(n):
+                            ks = {0: [False, False], 1: [False, True], 2: [True, True]}[c[i]]
+                            keep += ks + [False, False]
+                        out.append(("filter", f"move |x: &(usize, u8)| {{ {self.table(keep)}[x.0] }}"))
+                    else:
+                        keep = self.keep_table(si, filt_stages, per_output=False)
+                        out.append(("filter", f"move |x: &(usize, u8)| {{ {self.table(keep)}[x.0] }}"))
+            elif op == "filter_map":
+                keep = self.keep_table(si, filt_stages, per_output=False)
+                out.append(("filter_map", f"move |x: {arg_t}| {{ {pr}{get} if {self.table(keep)}[t] {{ Some((t, v ^ 0x10)) }} else {{ None }} }}"))
+                first = False
+            elif op == "flat_map":
+                last = si == len(self.ops) - 1
+                fan = c if last else [2] * n
+                out.append(("flat_map", f"move |x: {arg_t}| {{ {pr}{get} [(4 * t, v), (4 * t + 1, v ^ 8)].into_iter().take({self.table(fan)}[t]) }}"))
+                first = False
+        return out
+
+    def keep_table(self, si, filt_stages, per_output):
+        """which filtering stage drops a dropped element: alternate by position parity when there are two"""
+        n, c = self.n, self.counts
+        my = [i for i, o in enumerate(self.ops) if o in ("filter", "filter_map")]
+        k = my.index(si)
+        keep = []
+        for i in range(n):
+            if c[i] >= 1:
+                keep.append(True)
+            elif len(my) == 1:
+                keep.append(False)
+            else:
+                keep.append(not ((i % 2) == k))
+        return keep
+
+    def chain(self, head, params="", probes=False):
+        s = head + params
+        for m, cl in self.closures(probes):
+            s += f".{m}({cl})"
+        return s
+
+    def par(self, params=""):
+        return self.chain(self.par_src(), params, probes=True)
+
+    def seq(self):
+        return self.chain(self.seq_src())
+
+    def final_is_ref(self):
+        return self.src_ref() and all(o == "filter" for o in self.ops)
+
+    def descr(self):
+        return f"{self.src}:{self.ty} counts={self.counts}"
